@@ -511,6 +511,10 @@ def all_leaves(tier="thorough"):
                     out.append(L("BNAF", dim=d, cond=cond, depth=depth, bd=bd))
     out.append(L("BNAF", dim=2, cond=None, depth=1, bd=2, act="callable"))
     out.append(L("BNAF", dim=2, cond=None, depth=1, bd=2, act="module"))
+    for cond in (None, 2):
+        out.append(L("MAF", dim=3, cond=cond, tr="affine", d=0))
+        out.append(L("MAF", dim=2, cond=cond, tr="rqs", d=0))
+        out.append(L("Coupling", dim=3, cond=cond, tr="affine", d=0))
     return out
 
 
@@ -528,6 +532,7 @@ def rep_leaves():
         L("BNAF", dim=2, cond=2, depth=2, bd=2),  # conditional AND >= 2 hidden layers: the two copies of the layer loop must agree
         L("Planar", dim=2, cond=None, slope=3.0),  # leaky slope above one (finding 12)
         L("BNAF", dim=2, cond=None, depth=1, bd=2, act="module"),  # activation = callable module with its own trainable array
+        L("MAF", dim=3, cond=None, tr="affine", d=0),  # linear conditioner (no hidden layer): the single layer is first AND last
     ]
 
 
@@ -789,7 +794,7 @@ def _one_per_kind(specs):
         opt = (s.get("mode"), s.get("axis"), s.get("cond_axis"), (s.get("idx") or {}).get("t"), s.get("n"))
         if s["k"] == "Reshape":  # the target rank (incl. the scalar target ()) is a semantic option of Reshape
             opt += (None if s.get("shape") is None else len(s["shape"]), None if s.get("cond") is None else len(s["cond"]))
-        key = (_cls(s), opt, s.get("act") if "c" not in s else None)  # a BNAF leaf with another kind of activation is another kind
+        key = (_cls(s), opt, (s.get("act"), s.get("d")) if "c" not in s else None)  # a leaf with another activation kind / conditioner depth is another kind
         if key not in seen:
             seen.add(key)
             out.append(s)
